@@ -2,6 +2,8 @@ import MidnightZK.Proofs.C08.Expose
 import MidnightZK.Proofs.C08.BigBound
 import MidnightZK.Proofs.C08.Verify
 import MidnightZK.Proofs.C08.ScalarLong
+import MidnightZK.Proofs.C08.Handles
+import MidnightZK.Proofs.C08.Names
 /-!
 # C08 — the off-circuit public-input encoding is exactly what the circuit binds
 
@@ -567,5 +569,268 @@ theorem biguint_declared_bound_checked (nb declared : Nat) (hnb : 1 ≤ nb) :
 example : bigExposeGuard 96 (assignBounds 96 97) 97 = true ∧
     bigExposeGuard 96 (assignBounds 96 97) 192 = false ∧
     bigExposeGuard 96 (assignBounds 96 97) 96 = false := by decide +kernel
+
+/-! ## Several handles on the native chip (clones held by gadgets), both instance columns -/
+
+/-- `counters_shared_across_handles`: `NativeChip` is cloned into every gadget
+(`NativeGadget::new`, `ForeignEccChip::new`, `VerifierGadget::new`, …) and its two instance-row
+counters are `Rc<RefCell<usize>>`, i.e. every clone references the same two cells (`sharedEnv`).
+Then the state is threaded through the whole synthesis: the rows bound on BOTH columns are a
+function of the sequence of exposed items only — two circuits exposing the same sequence
+through any two assignments of handles bind the same rows to the same cells, namely those of
+the handle-free two-counter machine `exposeItems`. -/
+theorem counters_shared_across_handles (steps steps' : List (Handle × HItem))
+    (hseq : steps.map (·.2) = steps'.map (·.2)) :
+    (exposeVia sharedEnv {} steps).map (Synth.view NChip.new)
+        = exposeItems {} (steps.map (·.2)) ∧
+    (exposeVia sharedEnv {} steps).map (Synth.view NChip.new)
+        = (exposeVia sharedEnv {} steps').map (Synth.view NChip.new) := by
+  have hne : NChip.new.plainRef ≠ NChip.new.comRef := by decide
+  have e1 := exposeVia_view sharedEnv NChip.new (fun _ => rfl) hne steps {}
+  have e2 := exposeVia_view sharedEnv NChip.new (fun _ => rfl) hne steps' {}
+  rw [view_init] at e1 e2
+  exact ⟨e1, by rw [e1, e2, hseq]⟩
+
+/-- The same for ANY system of handles that reference one pair of distinct cells (whatever the
+cells are and whatever the state of the synthesis when the exposures start). -/
+theorem counters_shared_general (env : Handle → NChip) (h0 : NChip) (henv : ∀ h, env h = h0)
+    (hne : h0.plainRef ≠ h0.comRef) (s : Synth) (steps : List (Handle × HItem)) :
+    (exposeVia env s steps).map (Synth.view h0) = exposeItems (s.view h0) (steps.map (·.2)) :=
+  exposeVia_view env h0 henv hne steps s
+
+/-- `handles_rows_consecutive`: exposing any interleaving of items through any handles binds, on
+the plain column, rows `0, 1, 2, …` to the concatenated plain cells of the items in order, and
+on the committed column rows `0, 1, 2, …` to the concatenated committed cells: no row is bound
+twice, none is skipped, the two columns count independently. -/
+theorem handles_rows_consecutive (steps : List (Handle × HItem)) (s : Synth)
+    (h : exposeVia sharedEnv {} steps = some s) :
+    ∃ pl cm, hcellsAll (steps.map (·.2)) = some (pl, cm) ∧
+      s.store NChip.new.plainRef = pl.length ∧ s.binds = (List.range' 0 pl.length).zip pl ∧
+      s.store NChip.new.comRef = cm.length ∧ s.comBinds = (List.range' 0 cm.length).zip cm := by
+  have e := (counters_shared_across_handles steps steps rfl).1
+  rw [h, Option.map_some] at e
+  obtain ⟨pl, cm, hf, h1, h2, h3, h4⟩ := exposeItems_spec _ {} _ e.symm
+  exact ⟨pl, cm, hf, by simpa [Synth.view] using h1, by simpa [Synth.view] using h2,
+    by simpa [Synth.view] using h3, by simpa [Synth.view] using h4⟩
+
+/-- One step exposes its off-circuit encoding on both columns, when the typed value does
+(`cells_eq_encode`); for accumulators (plain and with committed scalars) unconditionally. -/
+theorem handle_step_agrees (it : HItem)
+    (h : ∀ p v, it = .val p v → cells p v = encode v) : hcells it = henc it := by
+  cases it with
+  | val p v => simp [hcells, henc, h p v rfl]
+  | acc c l r =>
+    cases hP : curveParams "bls" with
+    | none => cases c <;> simp [hcells, henc, hP]
+    | some P =>
+      have hp : paramsOf "bls_base" = some P := by
+        have : curveParams "bls" = paramsOf "bls_base" := by decide +kernel
+        rw [← this, hP]
+      obtain ⟨_, _, hq, hn⟩ := params_sound "bls_base" P hp
+      cases c
+      · simp [hcells, henc, hP, cellsAcc_eq q P hq hn]
+      · simp [hcells, henc, hP, cellsAccCommitted_eq q P hq hn]
+
+/-- `handles_instance_satisfies_iff`: end-to-end for a circuit exposing `steps` through any
+handles, with instance columns `(committed, plain)` of the lengths of the encodings: both
+columns' copy constraints hold iff the pair is exactly (concatenated committed encoders,
+concatenated plain encoders) — what `MockProver` is asked on every run, with every
+single-position edit of either column. -/
+theorem handles_instance_satisfies_iff (steps : List (Handle × HItem)) (s : Synth)
+    (h : exposeVia sharedEnv {} steps = some s)
+    (hag : hcellsAll (steps.map (·.2)) = hencAll (steps.map (·.2)))
+    (pi ci : List Nat) (hpl : pi.length = s.store NChip.new.plainRef)
+    (hcl : ci.length = s.store NChip.new.comRef) :
+    ∃ pl cm, hencAll (steps.map (·.2)) = some (pl, cm) ∧
+      ((Holds s.binds pi ∧ Holds s.comBinds ci) ↔ (pi = pl ∧ ci = cm)) := by
+  obtain ⟨pl, cm, hf, h1, h2, h3, h4⟩ := handles_rows_consecutive steps s h
+  refine ⟨pl, cm, by rw [← hag, hf], ?_⟩
+  rw [h2, h4, holds_range_zip_iff pl pi (by omega), holds_range_zip_iff cm ci (by omega)]
+
+/-- Non-vacuity and witness (`per_handle_counters_collide`): the circuit of seeded/C08-4/demo.rs
+(committed `5` through the chip, `6` through the gadget, `7` through the chip). With the shared
+counters the committed rows are `0, 1, 2` and the honest committed vector is accepted; with one
+committed counter per clone (`perHandleEnv`: what `RefCell<usize>` by value gives) `5` and `6`
+are both bound to row 0, `7` to row 1, row 2 is free and the honest vector `[5, 6, 7]` is
+rejected. -/
+theorem per_handle_counters_collide :
+    let steps := [(Handle.chip, HItem.val .committed (.native 5)),
+      (Handle.gadget, HItem.val .committed (.native 6)), (Handle.chip, HItem.val .committed (.native 7))]
+    (exposeVia sharedEnv {} steps).map (·.comBinds) = some [(0, 5), (1, 6), (2, 7)] ∧
+    (exposeVia sharedEnv {} steps).map (fun s => holdsB s.comBinds [5, 6, 7]) = some true ∧
+    (exposeVia perHandleEnv {} steps).map (·.comBinds) = some [(0, 5), (0, 6), (1, 7)] ∧
+    (exposeVia perHandleEnv {} steps).map (fun s => holdsB s.comBinds [5, 6, 7]) = some false := by
+  decide +kernel
+
+/-- With one committed counter per clone, ANY two committed cells exposed through two different
+handles are bound to the same row 0 (so the circuit forces them equal and leaves row 1 free). -/
+theorem per_handle_first_rows_collide (h1 h2 : Handle) (hne : h1 ≠ h2) (a b : Nat) :
+    ((({} : Synth).constrainCommitted (perHandleEnv h1) a).constrainCommitted (perHandleEnv h2) b).comBinds
+      = [(0, a), (0, b)] := by
+  cases h1 <;> cases h2 <;> first | (exact absurd rfl hne) | rfl
+
+/-- … whereas through the real (shared) handles they get rows 0 and 1. -/
+theorem shared_first_rows_consecutive (h1 h2 : Handle) (a b : Nat) :
+    ((({} : Synth).constrainCommitted (sharedEnv h1) a).constrainCommitted (sharedEnv h2) b).comBinds
+      = [(0, a), (1, b)] := rfl
+
+/-! ## The committed instance at the verifier -/
+
+/-- `commit_to_instances` writes the vector into a zero column: trailing zeros do not change
+the commitment. Unlike the plain column (`exact_count_needed`) there is no recorded count for
+the committed column, so `[c₀, …, c_k]` and `[c₀, …, c_k, 0]` are the same committed instance
+for the verifier (observed on real proofs: `pad0=ok`). -/
+theorem commitKey_append_zeros (v : List Nat) (k : Nat) :
+    commitKey (v ++ List.replicate k 0) = commitKey v := commitKey_append_zeros_aux v k
+
+/-- `verify_committed_ok_iff`: `zk_stdlib::verify` with `committed_instance = cm` accepts iff
+the plain vector has the recorded length and is the proved one, the commitment is the one of
+the proved committed column (`None` = commitment to the zero column), and both columns satisfy
+their copy constraints. -/
+theorem verify_committed_ok_iff (vk : MidnightVK) (b cb : List (Nat × Nat))
+    (pp pc pi : List Nat) (cm : Option (List Nat)) :
+    verifyCommittedVerdict vk b cb pp pc pi cm = .ok ↔
+      pi.length = vk.nbPublicInputs ∧ pp = pi ∧ commitKey pc = cm.getD (commitKey []) ∧
+        Holds b pi ∧ Holds cb pc := by
+  rw [verifyCommittedVerdict_ok_iff, verifyGuard_iff, holdsB_iff, holdsB_iff]
+
+example : verifyCommittedVerdict ⟨1⟩ [(0, 7)] [(0, 9), (1, 0)] [7] [9, 0] [7] (some (commitKey [9])) = .ok ∧
+    verifyCommittedVerdict ⟨1⟩ [(0, 7)] [(0, 9), (1, 0)] [7] [9, 0] [7] none = .rejected ∧
+    verifyCommittedVerdict ⟨1⟩ [(0, 7)] [(0, 9), (1, 0)] [7] [9, 0] [7, 0] (some [9]) = .invalidInstances := by
+  decide
+
+/-! ## Fixed-base names: `AssignedMsm::assign` rebuilds the off-circuit `BTreeMap` -/
+
+/-- `assign_fixed_consistent`: the off-circuit `Msm` holds its fixed-base scalars in a
+`BTreeMap` (key order); `AssignedMsm::assign` is handed the caller's name list in ANY order
+(`verifier::fixed_base_names` is not lexicographic beyond 10 commitments), takes the values in
+key order, sorts the names and zips. If the map's keys are the sorted names (the caller names
+exactly the fixed bases of the MSM), the in-circuit map IS the off-circuit map: every scalar
+stays attached to its own name, so the exposure (`.values()`) lists the scalars in the order of
+the off-circuit encoder. For any strict order that is asymmetric. -/
+theorem assign_fixed_consistent {κ α : Type} (lt : κ → κ → Bool)
+    (hasym : ∀ a b, lt a b = true → lt b a = false) (names : List κ) (off : List (κ × α))
+    (hs : off.Pairwise (fun a b => lt a.1 b.1 = true)) (hkeys : off.map (·.1) = isort lt names) :
+    assignFixed lt names off = off := by
+  unfold assignFixed
+  rw [← hkeys, zip_fst_snd, btree_of_sorted lt hasym off hs]
+
+/-- The order of Rust's `String` keys is asymmetric (so the theorem above applies to it). -/
+theorem strLt_asymm (a b : String) (h : strLt a b = true) : strLt b a = false := by
+  simp only [strLt, decide_eq_true_eq, decide_eq_false_iff_not] at *
+  exact String.lt_asymm h
+
+/-- Non-vacuity on the library's own names, and the witness of seeded defect C08-3: with 11 fixed
+commitments `vk_fixed_com_10` sorts before `vk_fixed_com_2`; with the sort the map is rebuilt,
+without it the scalars are attached to other names (a permuted public-input vector). -/
+theorem assign_without_sort_permutes :
+    ("vk_fixed_com_10" < "vk_fixed_com_2") ∧
+    assignFixed strLt ["-G", "vk_fixed_com_2", "vk_fixed_com_10"]
+        [("-G", 1), ("vk_fixed_com_10", 2), ("vk_fixed_com_2", 3)]
+      = [("-G", 1), ("vk_fixed_com_10", 2), ("vk_fixed_com_2", 3)] ∧
+    assignFixedNoSort strLt ["-G", "vk_fixed_com_2", "vk_fixed_com_10"]
+        [("-G", 1), ("vk_fixed_com_10", 2), ("vk_fixed_com_2", 3)]
+      = [("-G", 1), ("vk_fixed_com_10", 3), ("vk_fixed_com_2", 2)] := by
+  decide
+
+/-- `exposeAll_eq_exposeItems`: the relation-level machine of the earlier theorems
+(`nb_public_inputs_eq`, `instance_satisfies_iff`, `verify_ok_iff`, … — a `Relation::circuit`
+exposing typed values through `ZkStdLib`, which dispatches to `native_gadget`, `jubjub()`,
+`secp256k1_curve()`, `biguint()`, …, each holding its own clone of the native chip) is the
+handle-free machine on the same items, hence by `counters_shared_across_handles` the synthesis
+through ANY assignment of those chip handles. -/
+theorem exposeAll_eq_exposeItems : ∀ (steps : List (Path × Val)) (c : Chip),
+    exposeAll c steps = exposeItems c (steps.map (fun s => HItem.val s.1 s.2))
+  | [], _ => rfl
+  | (p, v) :: rest, c => by
+    simp only [exposeAll, exposeItems, List.map_cons, exposeStep, hcells]
+    cases hc : cells p v with
+    | none => simp
+    | some cs =>
+      by_cases hp : p = .committed
+      · simp [hp, Chip.constrainAll, exposeAll_eq_exposeItems rest]
+      · simp [hp, Chip.constrainAllCommitted, exposeAll_eq_exposeItems rest]
+
+/-- Corollary: a relation's counters and bound rows do not depend on which chip handle each
+step goes through. -/
+theorem relation_handles_irrelevant (steps : List (Path × Val)) (hs : List Handle)
+    (hl : hs.length = steps.length) :
+    (exposeVia sharedEnv {} (hs.zip (steps.map (fun s => HItem.val s.1 s.2)))).map (Synth.view NChip.new)
+      = exposeAll {} steps := by
+  rw [exposeAll_eq_exposeItems, (counters_shared_across_handles _ _ rfl).1]
+  congr 1
+  rw [List.map_snd_zip]
+  simp [hl]
+
+/-! ## The shape of `NativeChip` in the current source (regenerated on every run) -/
+
+/-- `code_env_shared`: over the definitions the translator `c08_chip.py` extracted from
+`native_chip.rs` now — `NativeChip` derives `Clone` (no hand-written impl), both counters are
+`Rc<RefCell<usize>>`, `constrain_as_public_input` reads-then-increments (by 1) its own counter and
+binds column `instance_col`, `constrain_as_committed_public_input` reads-then-increments (by 1) a
+DIFFERENT counter and binds `committed_instance_col`, `nb_public_inputs` reads the plain counter —
+every handle references the same pair of distinct cells. Seeded defect C08-4 (a by-value
+`RefCell<usize>`) breaks this theorem. -/
+theorem code_env_shared :
+    (∀ h, codeEnv h = codeEnv .chip) ∧ (codeEnv .chip).plainRef ≠ (codeEnv .chip).comRef ∧
+    Gen.plainExposure.2 = ("instance_col", 1) ∧
+    Gen.committedExposure.2 = ("committed_instance_col", 1) ∧
+    Gen.nbPublicInputsField = Gen.plainExposure.1 := by
+  refine ⟨fun h => ?_, by decide +kernel, by decide +kernel, by decide +kernel, by decide +kernel⟩
+  cases h <;> decide +kernel
+
+/-- `code_handles_threaded`: hence for the chip as the source has it now, a synthesis exposing
+any interleaving of items through any handles is the two-counter machine on the items alone
+(rows consecutive on both columns: `handles_rows_consecutive` through `exposeItems_spec`). -/
+theorem code_handles_threaded (steps : List (Handle × HItem)) :
+    (exposeVia codeEnv {} steps).map (Synth.view (codeEnv .chip))
+      = exposeItems {} (steps.map (·.2)) :=
+  counters_shared_general codeEnv (codeEnv .chip) code_env_shared.1 code_env_shared.2.1 {} steps
+
+/-- If every step exposes its encoding (`handle_step_agrees`), the concatenated bound cells are
+the concatenated encoders: discharges the hypothesis of `handles_instance_satisfies_iff`. -/
+theorem hcellsAll_eq_hencAll : ∀ (items : List HItem), (∀ it ∈ items, hcells it = henc it) →
+    hcellsAll items = hencAll items
+  | [], _ => rfl
+  | it :: rest, h => by
+    simp only [hcellsAll, hencAll, h it (by simp),
+      hcellsAll_eq_hencAll rest (fun i hi => h i (by simp [hi]))]
+
+/-- `handles_edits_rejected`: the oracle the harness evaluates on the multi-handle circuits,
+derived from the model: after exposing any interleaving through any handles, the vectors of
+bound cells `(cm, pl)` satisfy both columns and every single-position edit (+1) of either
+column violates that column's copy constraints. -/
+theorem handles_edits_rejected (steps : List (Handle × HItem)) (s : Synth)
+    (h : exposeVia sharedEnv {} steps = some s) :
+    ∃ pl cm, hcellsAll (steps.map (·.2)) = some (pl, cm) ∧
+      ((∀ x ∈ pl, x < q) → holdsB s.binds pl = true ∧ rejectedEdits q s.binds pl = pl.length) ∧
+      ((∀ x ∈ cm, x < q) → holdsB s.comBinds cm = true ∧ rejectedEdits q s.comBinds cm = cm.length) := by
+  obtain ⟨pl, cm, hf, _, h2, _, h4⟩ := handles_rows_consecutive steps s h
+  have hq : 1 < q := by decide +kernel
+  have b (cs : List Nat) : (Chip.constrainAll {} cs).binds = (List.range' 0 cs.length).zip cs := by
+    have := (constrainAll_spec cs {}).2.1
+    simpa using this
+  refine ⟨pl, cm, hf, fun hx => ?_, fun hx => ?_⟩
+  · rw [h2, ← b pl]; exact edits_rejected q hq pl hx
+  · rw [h4, ← b cm]; exact edits_rejected q hq cm hx
+
+example : (exposeVia sharedEnv {} [(.chip, .val .committed (.native 5)), (.gadget, .val .constrain (.bit true)),
+    (.eccsc, .val .committed (.byte 9))]).map (fun s => (s.binds, s.comBinds)) =
+    some ([(0, 1)], [(0, 5), (1, 9)]) := by decide +kernel
+
+/-- … and then the honest committed vector `[a, b]` is rejected unless the two values happen to
+be equal (and when they are, row 1 is free: the edit of position 1 is accepted — both symptoms
+are what the harness observes under seeded defect C08-4). -/
+theorem per_handle_rejects_honest (h1 h2 : Handle) (hne : h1 ≠ h2) (a b : Nat) (hab : a ≠ b) :
+    holdsB ((({} : Synth).constrainCommitted (perHandleEnv h1) a).constrainCommitted (perHandleEnv h2) b).comBinds
+      [a, b] = false := by
+  rw [per_handle_first_rows_collide h1 h2 hne a b]
+  simp [holdsB, hab]
+
+theorem per_handle_leaves_row_free (h1 h2 : Handle) (hne : h1 ≠ h2) (a x : Nat) :
+    holdsB ((({} : Synth).constrainCommitted (perHandleEnv h1) a).constrainCommitted (perHandleEnv h2) a).comBinds
+      [a, x] = true := by
+  rw [per_handle_first_rows_collide h1 h2 hne a a]
+  simp [holdsB]
 
 end MidnightZK.C08
